@@ -11,12 +11,20 @@ Problem format of the module: `blocks` = list of regions, each a list of (y, x) 
 (every region of a published LITS is connected; the generator below also emits a few instances with a disconnected or a
 too-small region, which the rules simply make unsatisfiable or restrict).
 Answer key: `is_black` (height x width, row-major); True = shaded.
+
+Generation: besides random partitions of boards up to 3 x 4 (all 2^(h*w) grids are enumerated there), boards of 4 x 4 / 4 x 5 /
+5 x 4 / 3 x 5 with 2-3 regions, one of them a forced tetromino-shaped region and a neighbouring one containing a whole "plus"
+(so that T pieces whose centre has four same-region neighbours occur next to forced L / T pieces).  On boards with more than
+12 cells `answer_space` enumerates, per region, the orthogonally connected 4-cell subsets of the region (product over the
+regions) -- a superset of the rule-obeying grids by rule 1; `rule_check` re-verifies every rule on each candidate.
+`_shape` identifies tetrominoes up to rotation AND reflection (five classes I, L, T, S, O; O never survives rule 3).
 """
 import itertools
 
 NAME = "lits"
-STATUS = "model+differential"
-THEOREMS = []
+STATUS = "theorem"
+THEOREMS = ["Cspuz.C11.Lits.program_iff_rules", "Cspuz.C11.Lits.total"]
+LEAN_FILE = "C11_Lits"
 LEAN_CMD = "puz_lits"
 
 _SIZES = [(1, 4), (4, 1), (2, 2), (2, 3), (3, 2), (2, 4), (4, 2), (3, 3), (3, 4), (4, 3), (3, 4), (4, 3), (2, 5), (5, 2),
@@ -40,7 +48,7 @@ def _partition(rng, h, w, k):
     return blocks
 
 
-_PLUS_SIZES = [(3, 4), (4, 3), (3, 5), (5, 3), (4, 4), (4, 4), (4, 5), (5, 4), (4, 5), (5, 4)]
+_PLUS_SIZES = [(3, 4), (4, 3), (3, 5), (5, 3), (4, 4), (4, 4), (4, 4), (4, 4), (4, 4), (4, 5), (5, 4)]
 
 
 def _plus_partition(rng, h, w):
@@ -49,8 +57,9 @@ def _plus_partition(rng, h, w):
     four neighbours in its own region can sit next to a forced L / T / S / I piece."""
     cells = [(y, x) for y in range(h) for x in range(w)]
     pieces = _tetrominoes_in(cells)
+    lt = [t for t in pieces if _shape(t) in (_shape([(0, 0), (1, 0), (2, 0), (2, 1)]), _shape([(0, 0), (0, 1), (0, 2), (1, 1)]))]
     for _ in range(60):
-        forced = set(rng.choice(pieces))
+        forced = set(rng.choice(lt if rng.random() < 0.8 else pieces))
         rest = [c for c in cells if c not in forced]
         if not _connected(rest):
             continue
@@ -67,7 +76,17 @@ def _plus_partition(rng, h, w):
             owner[(cy + dy, cx + dx)] = 0
         k = 2
         free = [c for c in rest if c not in owner]
-        if len(free) >= 4 and rng.random() < 0.35:
+        comps = _components(free)
+        if comps and len(comps[0]) >= 4 and rng.random() < 0.85:
+            # tight variant: the plus region is (almost) just the plus, so its piece is mostly a T centred on the plus;
+            # the largest connected part of the remaining cells is a third region, smaller parts join the plus region
+            k = 3
+            for c in comps[0]:
+                owner[c] = 2
+            for comp in comps[1:]:
+                for c in comp:
+                    owner[c] = 0
+        elif len(free) >= 4 and rng.random() < 0.35:
             owner[rng.choice(free)] = 2
             k = 3
         while len(owner) < len(cells):
@@ -86,8 +105,26 @@ def _plus_partition(rng, h, w):
     return _partition(rng, h, w, 2)
 
 
+# Instances of the family "a T tetromino centred on a cell whose four neighbours all lie in its own region, next to a forced
+# L piece of another region" (4 x 4, three regions, two solutions each); replayed under a random symmetry of the square.
+_CRAFTED = [
+    [[[0, 0], [0, 1], [1, 0], [1, 1], [1, 2], [2, 1]], [[0, 2], [0, 3], [1, 3], [2, 3]], [[2, 0], [2, 2], [3, 0], [3, 1], [3, 2], [3, 3]]],
+    [[[1, 2], [2, 1], [2, 2], [2, 3], [3, 2], [3, 3]], [[0, 1], [0, 2], [0, 3], [1, 3]], [[0, 0], [1, 0], [1, 1], [2, 0], [3, 0], [3, 1]]],
+    [[[0, 0], [0, 1], [1, 0], [1, 1], [1, 2], [2, 1]], [[2, 0], [3, 0], [3, 1], [3, 2]], [[0, 2], [0, 3], [1, 3], [2, 2], [2, 3], [3, 3]]],
+    [[[1, 1], [2, 0], [2, 1], [2, 2], [3, 0], [3, 1]], [[1, 3], [2, 3], [3, 2], [3, 3]], [[0, 0], [0, 1], [0, 2], [0, 3], [1, 0], [1, 2]]],
+]
+
+
 def gen_problem(rng, tier):
-    if rng.random() < 0.35:
+    if rng.random() < 0.12:
+        blocks = rng.choice(_CRAFTED)
+        fy, fx, tr = rng.random() < 0.5, rng.random() < 0.5, rng.random() < 0.5
+
+        def sym(c):
+            y, x = (3 - c[0] if fy else c[0]), (3 - c[1] if fx else c[1])
+            return [x, y] if tr else [y, x]
+        return {"height": 4, "width": 4, "blocks": [[sym(c) for c in b] for b in blocks]}
+    if rng.random() < 0.45:
         h, w = rng.choice(_PLUS_SIZES)
         blocks = _plus_partition(rng, h, w)
         if rng.random() < 0.3:
@@ -155,6 +192,27 @@ def answer_space(problem):
             for (y, x) in sel:
                 g[y * w + x] = True
         yield g
+
+
+def _components(cells):
+    """orthogonally connected components, largest first"""
+    left = set(cells)
+    out = []
+    while left:
+        start = min(left)
+        comp = {start}
+        todo = [start]
+        while todo:
+            y, x = todo.pop()
+            for dy, dx in _DIRS:
+                q = (y + dy, x + dx)
+                if q in left and q not in comp:
+                    comp.add(q)
+                    todo.append(q)
+        left -= comp
+        out.append(sorted(comp))
+    out.sort(key=lambda c: (-len(c), c))
+    return out
 
 
 def _shape(cells):
